@@ -29,6 +29,7 @@ func init() {
 		"fmt.Fprint":   extFmtNoop,
 
 		"errors.Is": extErrorsIs,
+		"errors.As": extErrorsAs,
 
 		"strings.Replace":    extStringsReplace,
 		"strings.ReplaceAll": func(fr *frame, a []value) value { return extStringsReplace(fr, []value{a[0], a[1], a[2], -1}) },
@@ -879,4 +880,55 @@ func extOsReadFile(fr *frame, a []value) value {
 	}
 	en := i.prog.ImportedPackage("errors").Func("New")
 	return tuple{[]value(nil), call(i, fr, en.Pos(), en, []value{"open " + name + ": no such file or directory"})}
+}
+
+// extErrorsAs models errors.As: the first error in err's chain (Unwrap, single or multiple) that is
+// assignable to the type target points to is stored there.  (As methods are not consulted: none in reach.)
+func extErrorsAs(fr *frame, args []value) value {
+	i := fr.i
+	err := i.forceIface(fr, args[0])
+	target := i.forceIface(fr, args[1])
+	if target.t == nil {
+		panic(targetPanic{iface{i.runtimeErrorString, "errors: target cannot be nil"}})
+	}
+	pt, ok := target.t.Underlying().(*types.Pointer)
+	p, okp := target.v.(*value)
+	if !ok || !okp || p == nil {
+		panic(targetPanic{iface{i.runtimeErrorString, "errors: target must be a non-nil pointer"}})
+	}
+	elem := pt.Elem()
+	var as func(e iface, depth int) bool
+	as = func(e iface, depth int) bool {
+		for depth < 64 && e.t != nil {
+			depth++
+			if types.AssignableTo(e.t, elem) {
+				i.logAddr(p)
+				if types.IsInterface(elem) {
+					*p = e
+				} else {
+					*p = e.v
+				}
+				return true
+			}
+			fn := i.findMethod(e.t, "Unwrap", 0)
+			if fn == nil || fn.Signature.Results().Len() != 1 {
+				return false
+			}
+			switch r := i.callMethod(fr, e, fn).(type) {
+			case iface:
+				e = r
+			case []value:
+				for _, x := range r {
+					if xi, ok := x.(iface); ok && xi.t != nil && as(xi, depth) {
+						return true
+					}
+				}
+				return false
+			default:
+				return false
+			}
+		}
+		return false
+	}
+	return as(err, 0)
 }
